@@ -148,16 +148,20 @@ def _draws(case, cov, viol):
             m.weighted_yz_test_pred = np.array([[pm_ * pt * WGT], [pm_ * pt * WGT], [0.05 * WGT]])
             m.weighted_z_test_pred = np.array([[pt * WGT], [pt * WGT], [WGT]])
             nr = nonrep.assign(pred_margin=m.weighted_yz_test_pred.flatten())
-            agg = m.get_aggregate_predictions(rep, nr, unx, ["postal_code"], "margin")
-            pred = dict(zip(agg.postal_code, agg.pred_margin))
-            unit_iv, agg_iv = {}, {}
-            for a in ALPHAS:
-                u = m.get_unit_prediction_intervals(rep, nr, a, "margin")
-                g = m.get_aggregate_prediction_intervals(rep, nr, unx, ["postal_code"], a, u, "margin")
-                unit_iv[a] = (np.asarray(u.lower).flatten(), np.asarray(u.upper).flatten())
-                agg_iv[a] = (np.asarray(g.lower).flatten(), np.asarray(g.upper).flatten())
-                runs += 1
             ctx = f"B={B} draws(est margin, truth margin, turnout pair)={draws} point=(margin {pm_}, turnout {pt})"
+            try:
+                agg = m.get_aggregate_predictions(rep, nr, unx, ["postal_code"], "margin")
+                pred = dict(zip(agg.postal_code, agg.pred_margin))
+                unit_iv, agg_iv = {}, {}
+                for a in ALPHAS:
+                    u = m.get_unit_prediction_intervals(rep, nr, a, "margin")
+                    g = m.get_aggregate_prediction_intervals(rep, nr, unx, ["postal_code"], a, u, "margin")
+                    unit_iv[a] = (np.asarray(u.lower).flatten(), np.asarray(u.upper).flatten())
+                    agg_iv[a] = (np.asarray(g.lower).flatten(), np.asarray(g.upper).flatten())
+                    runs += 1
+            except Exception as e:
+                viol("interval-method-raised", f"{ctx}: {type(e).__name__}: {e}")
+                continue
             for a in ALPHAS:
                 lo, hi = unit_iv[a]
                 if not (lo <= hi).all():
